@@ -140,6 +140,21 @@ pub fn special(run: &mut Run, rng: &mut Rng, thorough: bool) {
         for mut m in super::mutations(&v, rng, 24) { if m.len() >= 12 { for i in 0..4 { m[i] = v[i]; } crc_fix(&mut m); } run_sctp(run, &live, &m, true); k += 1; }
         if rng.chance(1, 10) { let len = rng.range(12, 200) as usize; let mut r = rng.bytes(len); crc_fix(&mut r); run_sctp(run, &live, &r, false); k += 1; }
     }
+    // framed truncations: every chunk alone with its value cut to every length (chunk length adjusted, CRC repaired)
+    for _ in 0..(if thorough { 4_000 } else { 200 }) {
+        let v = gen_sctp_packet(rng);
+        let mut off = 12;
+        while off + 4 <= v.len() {
+            let cl = u16::from_be_bytes([v[off + 2], v[off + 3]]) as usize;
+            if cl < 4 || off + cl > v.len() { break; }
+            let value = &v[off + 4..off + cl];
+            for k in 0..=value.len() {
+                let mut p = v[..12].to_vec(); chunk(&mut p, v[off], v[off + 1], &value[..k]); crc_fix(&mut p);
+                run_sctp(run, &live, &p, true);
+            }
+            off += (cl + 3) / 4 * 4;
+        }
+    }
     // long walks: a 64 KiB packet of minimal chunks / of SACK gap blocks
     let mut big = vec![0x13, 0x88, 0x13, 0x88, 0, 0, 0, 0, 0, 0, 0, 0];
     while big.len() + 4 <= 65532 { big.extend_from_slice(&[11, 0, 0, 4]); }
